@@ -168,8 +168,9 @@ theorem fosterII_realises (nets : List (Net K)) (net : Net K) (x : K) (h : parAl
   have := Y_parAll nets x
   rw [h] at this; exact this
 
-/-- Foster I end to end for simple poles: term `r/(x−p)` of the expansion ↦ a section with that impedance -/
-theorem fosterI_realises_ratfun (B A Q : List K) (poles : List (K × Nat)) (terms : List (K × K × Nat))
+/-- Foster I from a CHECKED partial-fraction expansion: term `r/(x−p)^o` ↦ a section with that impedance
+    (the end-to-end statements from `N/D` are `fosterI_realises_ratfun` / `fosterII_realises_ratfun` in C19Forms.lean) -/
+theorem fosterI_realises_terms (B A Q : List K) (poles : List (K × Nat)) (terms : List (K × K × Nat))
     (nets : List (Net K)) (qnet net : Net K) (x : K)
     (hc : pfCheck B A Q poles terms = true) (hA : Poly.eval A x ≠ 0)
     (hq : qnet.Z x = Poly.eval Q x)
